@@ -519,6 +519,21 @@ def run(ctx):
     for a in range(200, 300, 7 if quick else 1):
         for b in range(a + 1, 520, 37 if quick else 3):
             bl.append({"spec": long, "cuts": [a, b]})
+    # every NUMBER of fragments a reply can arrive in, up to what the reader documents as its limit (50 writes per exchange): a small MTU
+    # turns a pair-setup M2 into dozens of them.  (Beyond the limit the reader may give up with its own error: not demanded.)
+    m2 = [(6, 1), (2, 16), (3, 384)]
+    n = len(ref.encode(_mk_list(m2)))
+    for parts in range(2, 51):
+        for style in ("even", "front-loaded"):
+            if style == "even":
+                cuts = sorted({max(1, (n * i) // parts) for i in range(1, parts)})
+            else:
+                cuts = list(range(n - (parts - 1), n))  # one big fragment, then single bytes
+            if len(cuts) == parts - 1:
+                bl.append({"spec": m2, "cuts": cuts})
+                if parts in (49, 50) or not quick:
+                    bl.append({"spec": m2, "cuts": cuts, "via": "all"})
+        bl.append({"spec": m2, "cuts": sorted({max(1, (n * i) // parts) for i in range(1, parts)})[: parts - 2], "empty_last": True}) if parts > 2 else None
     work += _chunks("blefrag", bl, 300)
 
     ctx.pmap(_work, work)
